@@ -34,6 +34,26 @@ func init() {
 		"byte arrays are functional array terms; 'the bytes are identical' is asserted at one arbitrary (skolem) index",
 		"deadline.Deadline is executed from its real code; no read deadline is set",
 	}
+	register(&Prop{ID: "C08", Pkgs: pkgs, InitPkgs: []string{"deadline", "packetio"}, InstrDirs: []string{"packetio", "deadline"},
+		Runs: func(tier string) []gosym.RunConfig {
+			mk := func(r, w, cl, dl, steps int64) gosym.RunConfig {
+				return gosym.RunConfig{Name: fmt.Sprintf("sched-r%dw%dc%dd%d", r, w, cl, dl), Entry: "VerifBufSched", Sched: true, SmallInts: 32, Unwind: 6,
+					Params: map[string]int64{"readers": r, "writers": w, "close": cl, "deadline": dl, "steps": steps}, AssertPrefix: "C08:"}
+			}
+			if tier == "thorough" {
+				return []gosym.RunConfig{mk(2, 2, 0, 0, 60), mk(2, 2, 1, 0, 70), mk(2, 1, 1, 1, 70), mk(3, 2, 0, 0, 90)}
+			}
+			return []gosym.RunConfig{mk(2, 2, 0, 0, 60), mk(2, 1, 1, 0, 60), mk(1, 1, 0, 1, 50)}
+		},
+		Bounds: func(tier string) []string {
+			return []string{"2 readers x 2 writers; 2 readers x 1 writer x Close; 1 reader x 1 writer x SetReadDeadline(past) (thorough: also 2x2xClose, 2x1xClosexDeadline, 3x2): one operation per goroutine, every interleaving at lock/channel/select granularity, scheduler step bound discharged"}
+		},
+		Assume: []string{
+			"goroutines run atomically between scheduling points (Lock, channel operations, select, atomics); justified for data-race-free code (C19)",
+			"packets are empty (contents are irrelevant to the wake-up protocol; contents are C06)",
+			"timers are a model; the deadline used here is already in the past when it is set",
+		},
+		Outside: []string{"more goroutines / more than one operation per goroutine", "future deadlines expiring during a read (C10)"}})
 	for _, id := range []string{"C06", "C07"} {
 		register(&Prop{ID: id, Pkgs: pkgs, InitPkgs: []string{"deadline", "packetio"}, Runs: runs(id + ":"), Bounds: bounds, Assume: assume,
 			Outside: []string{"more operations than the bound", "concurrent writers and readers (C08/C19)", "the packetioSizeHardlimit build tag"}})
